@@ -254,6 +254,8 @@ func newConcSUT(kind string, rng *rand.Rand) (*concSUT, error) {
 }
 
 // goroutineDumpShowsCometDeadlock: every goroutine that is inside comet frames is parked on a sync primitive.
+func init() { ev.DeadlockClassifier = goroutineDumpShowsCometDeadlock }
+
 func goroutineDumpShowsCometDeadlock(dump string) bool {
 	blocks := strings.Split(dump, "\n\n")
 	inComet, parked := 0, 0
@@ -777,7 +779,7 @@ func c11TargetedStore(r *ev.Run) {
 	ctl.install()
 	defer ctl.uninstall()
 	own := &ownership{owners: map[any]string{}, tmpl: map[any]bool{}}
-	points := []string{"memq.add.picked", "memtable.add.prelock", "memtable.add.locked", "memtable.add.locked@roomy", "memtable.add.prelock@roomy", "flush.registered", "flush.dropped", "search.listed-memtables", "search.listed-segments", "crash:flush.added", "memq.list", "segmgr.list"}
+	points := []string{"memq.add.picked", "memtable.add.prelock", "memtable.add.locked", "memtable.add.locked@roomy", "memtable.add.prelock@roomy", "flush.registered", "flush.dropped", "search.listed-memtables", "search.listed-segments", "crash:flush.added", "memq.list", "segmgr.list", "segment.load.begin", "segment.load.instances"}
 	actions := []string{"add", "add-forcing-rotation", "search-all", "flush", "remove-newest"}
 	reps := r.Pick(1, 5)
 	total := reps * len(points) * len(actions)
